@@ -45,6 +45,9 @@ X86_LINES = {
     "rmw": ["addq $1, (%rax)", "subq $1, 8(%rcx,%rdx,8)", "addl %eax, (%rdx)", "incq (%rax)", "orq %rax, 8(%rbx)",
             "addq %rcx, (%rdi,%rsi,8)", "xorl %ebx, 4(%rax)"],
     "unknown": ["fancyop %xmm0, %xmm1", "vfoobarpd (%rax), %ymm1, %ymm2", "blorp %rax"],
+    # assembler constants: defined in one file, used (undefined) in another
+    "setdef": [".set STRIDE, 64", ".equ STEP, 8", ".set STRIDE, 32"],
+    "setuse": ["addq $STRIDE, %rax", "addq $STEP, %rcx", "subq $STRIDE, %rdx"],
     "branch": ["jne .L2", "jb .L2"],
 }
 A64_LINES = {
@@ -62,7 +65,7 @@ A64_LINES = {
     "unknown": ["fancyop x1, x2", "blorp v0.2d, v1.2d", "frobnicate d0, d1, d2"],
     "branch": ["b.ne .L2", "bne .L2"],
 }
-MEMISH = {"x86": ["mem-src", "rmw", "load", "store"], "aarch64": ["load-wb", "store-wb", "load", "store", "altport", "wb-noisa"]}
+MEMISH = {"x86": ["mem-src", "rmw", "load", "store", "setdef", "setuse"], "aarch64": ["load-wb", "store-wb", "load", "store", "altport", "wb-noisa"]}
 
 
 # ----------------------------------------------------------------------------------------------------------------
@@ -95,6 +98,8 @@ def floors(tier):
         "gen:load-wb": 3,
         "gen:altport": 1,
         "gen:wb-noisa": 3,
+        "gen:setdef": 2,
+        "gen:setuse": 2,
         "opt:--lcd-timeout": 5,
         "elements_cut_short_at_once": 1,
         "revisit_after_other": 50 if q else 700,
